@@ -190,7 +190,7 @@ impl Scenario for C15Read {
     fn runs(&self, tier: Tier) -> u64 {
         match tier {
             Tier::Quick => 12_000,
-            Tier::Thorough => 1_500_000,
+            Tier::Thorough => 600_000,
         }
     }
     fn describe(&self) -> &'static str {
